@@ -35,6 +35,7 @@ import (
 	"reflect"
 	"sort"
 	"strings"
+	"sync"
 
 	"gorm.io/gorm"
 )
@@ -381,7 +382,9 @@ func c08GenAssocCase(rng *rand.Rand, seed int64, n int) c08AssocCase {
 		// db.Select("Rel").Delete(&owner): callbacks/delete.go DeleteBeforeAssociations deletes the related rows (has-one /
 		// has-many / link rows) on a NewDB session and hands Unscoped on by hand
 		c.AssocUn = true
-		for c.Rel == "Home" || (c.Rel == "Teams" && c.DBUn != "" && rng.Intn(4) > 0) { // (Teams + Unscoped: the listed finding F33, visited rarely)
+		// (Teams + Unscoped is the pattern of finding F33: visited rarely while the finding is listed AND the regenerated arms say
+		// the repair is absent; ordinary input space otherwise)
+		for c.Rel == "Home" || (c.Rel == "Teams" && c.DBUn != "" && c08AvoidF33() && rng.Intn(4) > 0) {
 			c.Rel = c08Rels8[rng.Intn(len(c08Rels8))].Name
 		}
 	}
@@ -826,6 +829,55 @@ func c08AssocOne(r *Result, db *gorm.DB, c c08AssocCase, sub int64) {
 			}
 		}
 	}
+	if c.Op == "delete-owner" && (rel.Kind != "m2m" || rel.JoinDel) && rel.Kind != "belongsto" {
+		// TIE assoc.tie: Model/AssocScope.lean deleteAssocFlag over the REGENERATED arms of DeleteBeforeAssociations says which
+		// flag the nested Delete of this relation kind sees on the tree under test; the rows say which Delete ran (a live row
+		// that is gone: physical; a live row that is marked now: the soft-delete rewrite)
+		arm := "schema.HasOne, schema.HasMany"
+		if rel.Kind == "m2m" {
+			arm = "schema.Many2Many"
+		}
+		gone, marked := 0, 0
+		if rel.Kind == "m2m" {
+			left := map[[2]uint]c08Link{}
+			for _, l := range linksAfter {
+				left[[2]uint{l.Owner, l.Rel}] = l
+			}
+			for _, l := range linksBefore {
+				if !isOwner(l.Owner) || !l.Live {
+					continue
+				}
+				if a, present := left[[2]uint{l.Owner, l.Rel}]; !present {
+					gone++
+				} else if !a.Live {
+					marked++
+				}
+			}
+		} else {
+			for _, t := range targets {
+				if !t.row.Live {
+					continue
+				}
+				if a, present := afterByID[t.row.ID]; !present {
+					gone++
+				} else if !a.Live {
+					marked++
+				}
+			}
+		}
+		if model, ok := c08DeleteAssocModel(arm, c.Ctx == "propagate", un); ok && gone+marked > 0 {
+			r.CorrCompared++
+			r.Case("assoc.tie", fmt.Sprint(arm, c.Ctx == "propagate", un, rel.Name), true)
+			r.H("assoc.tie", fmt.Sprintf("%s propagate=%v unscoped=%v -> nested Delete unscoped=%v", arm, c.Ctx == "propagate", un, model))
+			if (model && marked > 0) || (!model && gone > 0) {
+				r.Violate(Violation{Kind: "correspondence", Suite: "assoc.tie", Input: c,
+					Observed: fmt.Sprintf("live rows removed physically: %d, marked: %d", gone, marked),
+					Expected: fmt.Sprintf("nested Delete unscoped = %v (deleteAssocFlag over Gen.deleteAssocArms)", model),
+					Note:     "callbacks/delete.go DeleteBeforeAssociations vs Model/AssocScope.lean nestedDeleteUnscoped"})
+				return
+			}
+		}
+	}
 	if rel.Kind != "m2m" {
 		for _, t := range targets {
 			if !doomed(t) {
@@ -889,12 +941,74 @@ func c08AssocOne(r *Result, db *gorm.DB, c c08AssocCase, sub int64) {
 
 const c08F33 = "F33-C08-select-delete-m2m-links-scoped"
 
-// c08ProbeF33 re-confirms the listed finding on the real code, literally
+// the model's answers for DeleteBeforeAssociations on the tree under test (driver ops c08.deleteAssoc / c08.deleteAssoc.allCopy)
+var c08DelAssoc struct {
+	once    sync.Once
+	ok      bool
+	allCopy bool
+	flag    map[string]bool // arm|propagate|u -> the nested Delete is unscoped
+}
+
+func c08DelAssocLoad() {
+	c08DelAssoc.once.Do(func() {
+		c08DelAssoc.flag = map[string]bool{}
+		ask := [][]interface{}{{"c08.deleteAssoc.allCopy"}}
+		var keys []string
+		for _, arm := range []string{"schema.HasOne, schema.HasMany", "schema.Many2Many"} {
+			for _, p := range []bool{false, true} {
+				for _, u := range []bool{false, true} {
+					ask = append(ask, []interface{}{"c08.deleteAssoc", arm, p, u})
+					keys = append(keys, fmt.Sprint(arm, "|", p, "|", u))
+				}
+			}
+		}
+		outs, err := AskLean(ask)
+		if err != nil || len(outs) != len(ask) || json.Unmarshal(outs[0], &c08DelAssoc.allCopy) != nil {
+			return
+		}
+		for i, k := range keys {
+			var b *bool
+			if json.Unmarshal(outs[i+1], &b) == nil && b != nil {
+				c08DelAssoc.flag[k] = *b
+			}
+		}
+		c08DelAssoc.ok = true
+	})
+}
+
+func c08DeleteAssocModel(arm string, propagate, u bool) (bool, bool) {
+	c08DelAssocLoad()
+	b, ok := c08DelAssoc.flag[fmt.Sprint(arm, "|", propagate, "|", u)]
+	return b, ok && c08DelAssoc.ok
+}
+
+// c08AvoidF33: while F33 is a listed finding of an unrepaired tree the generator visits its pattern only now and then
+func c08AvoidF33() bool {
+	c08DelAssocLoad()
+	return listed(c08F33) && !(c08DelAssoc.ok && c08DelAssoc.allCopy)
+}
+
+// c08ProbeF33 runs the witness of F33 on the real code, literally, on every run: while the finding is listed (and present) it
+// prints the KNOWN-FINDING line; when the entry is not listed (status "fixed") the ordinary oracle applies — the link rows of the
+// soft-deletable join model must be gone (I4), anything else is a VIOLATION; the tie assoc.tie is judged in both cases
 func c08ProbeF33(r *Result) {
 	db, _, sqlDB := OpenRec(&gorm.Config{NowFunc: fixedNowFunc})
 	defer sqlDB.Close()
 	c08AssocSeed(db, rand.New(rand.NewSource(1)))
 	c08AssocOne(r, db, c08AssocCase{Seed: 1, N: -1, Rel: "Teams", Op: "delete-owner", DBUn: "before-model", AssocUn: true, Owners: []uint{1}, Ctx: "tx"}, 1)
+	// … and every arm x Unscoped x PropagateUnscoped of DeleteBeforeAssociations once per run (all branches of the model behind
+	// the tie assoc.tie; the ordinary oracle judges each case)
+	dbP, _, sqlP := OpenRec(&gorm.Config{NowFunc: fixedNowFunc, PropagateUnscoped: true})
+	defer sqlP.Close()
+	c08AssocSeed(dbP, rand.New(rand.NewSource(1)))
+	for _, rel := range []string{"Pets", "Den", "Notes", "Teams"} {
+		for _, un := range []string{"", "before-model", "session"} {
+			for o := uint(1); o <= 3; o++ {
+				c08AssocOne(r, db, c08AssocCase{Seed: 1, N: -1, Rel: rel, Op: "delete-owner", DBUn: un, AssocUn: true, Owners: []uint{o}, Ctx: "tx"}, 1)
+				c08AssocOne(r, dbP, c08AssocCase{Seed: 1, N: -1, Rel: rel, Op: "delete-owner", DBUn: un, AssocUn: true, Owners: []uint{o}, Ctx: "propagate"}, 1)
+			}
+		}
+	}
 }
 
 func init() {
@@ -908,7 +1022,12 @@ func init() {
 	replayers["C08/assoc"] = func(r *Result, input json.RawMessage) {
 		var c c08AssocCase
 		if json.Unmarshal(input, &c) == nil {
+			if c.N < 0 {
+				c08ProbeF33(r) // the per-run witness probe of F33
+				return
+			}
 			c08AssocWorld(r, c.Seed)
 		}
 	}
+	replayers["C08/assoc.tie"] = replayers["C08/assoc"]
 }
